@@ -74,22 +74,123 @@ def oracle_min(terms_sx, bg, targets, logic, decls):
     return None
 
 
+def block_terms(block, sig, decls):
+    """trace terms of a minimisation as s-expressions with the signature / declarations extended by opensmt's auxiliary
+    ite constants: (terms, sig', decls') or None when a term does not read back"""
+    need = set(block.bg) | set(block.targets)
+    try:
+        t = {k: read_all(v)[0] for k, v in block.terms.items() if k in need}
+    except (ParseError, IndexError):
+        return None
+    if set(t) != need:
+        return None
+    ext = cc.with_aux_symbols(list(t.values()), sig, decls)
+    if ext is None:
+        return None
+    return t, ext[0], ext[1]
+
+
+def tie_block(block, core, full, rec, text, si, sig, logic, decls, out, cnt):
+    """exact replay of the traced minimisation on the extracted model + the model with z3 as inner solver"""
+    if not block.begun:
+        if len(core) != 0:
+            out["ties"].append(("minimize-empty-targets", "no inner solver was created but the printed core is %s" % sx_str(core), dict(script=text, query=si)))
+        else:
+            cnt("tie:no-targets")
+        return
+    if not block.complete:
+        out["ties"].append(("minimize-trace-incomplete", "min-begin without min-end", dict(script=text, query=si)))
+        return
+    ids = {}
+    def cid(x):
+        if x not in ids:
+            ids[x] = len(ids)
+        return ids[x]
+    bgi, tgi = [cid(x) for x in block.bg], [cid(x) for x in block.targets]
+    obs = [([cid(x) for x in L], a) for _, L, a in block.checks]
+    resi = [cid(x) for x in block.result]
+    if len(block.result) != len(core):
+        out["ties"].append(("minimize-result-printed", "traced result has %d terms, printed core %d" % (len(block.result), len(core)), dict(script=text, query=si)))
+    if any(a == "unknown" for _, a in obs):
+        cnt("tie:inner-unknown")
+        return
+    tab = {}
+    for L, a in obs:
+        tab[tuple(L)] = a == "sat"
+    reqs = ["min %s|%s|%s" % (cc.ilist(bgi), cc.ilist(tgi), cc.table_str(tab))]
+    if block.mode == "named":
+        reqs.append("mz 0|%s|%s|%s|%s" % (cc.ilist([cid(x) for x in block.current]), cc.ilist([1 if b else 0 for b in block.contains]),
+                                        cc.ilist(tgi), cc.table_str(tab)))
+    else:
+        reqs.append("mz 1|||%s|%s" % (cc.ilist(tgi), cc.table_str(tab)))
+    A = cc.driver(reqs)
+    ok = A[0].startswith("ok ") and A[1].startswith("ok ")
+    if ok:
+        R, Lg = cc.parse_ok(A[0])
+        R2, _ = cc.parse_ok(A[1])
+        ok = R == resi and R2 == resi and Lg == [(L, a == "sat") for L, a in obs]
+    if not ok:
+        out["ties"].append(("minimize-replay", "extracted performNaive/minimize on the observed answers gives %s; implementation: bg %s targets %s result %s, checks %s"
+                            % (A, bgi, tgi, resi, obs), dict(script=text, query=si)))
+    else:
+        cnt("tie:replay-exact")
+        rec["replay_ok"] = True
+    bt = block_terms(block, sig, decls)
+    if bt is None:
+        cnt("tie:oracle-skipped(trace terms unreadable)")
+        return
+    tsx = {cid(k): v for k, v in bt[0].items()}
+    Rz = oracle_min(tsx, bgi, tgi, logic, bt[2])
+    if Rz is None:
+        cnt("tie:oracle-unknown")
+    elif Rz != resi:
+        rec["oracle_mismatch"] = ("minimize-vs-oracle", "performNaive with z3 as inner solver returns %s, implementation %s (targets %s, bg %s)"
+                                  % (Rz, resi, tgi, bgi), dict(script=text, query=si, terms={k: sx_str(v) for k, v in tsx.items()}))
+    else:
+        cnt("tie:oracle-model-equal")
+
+
+def own_problem(rec, mode, core, isig, logic, idecls, impl_bg, impl_targets, impl_result):
+    """c07_irreducible on the implementation's own minimisation problem (terms as traced): if background + targets is
+    unsatisfiable then background + result is, and every drop-one set is satisfiable (certified)."""
+    if cc.judge_unsat(isig, logic, idecls, impl_bg + impl_targets)[0] != "agree":
+        rec["own"] = "input-not-unsat"
+        return
+    rv, rd = cc.judge_unsat(isig, logic, idecls, impl_bg + impl_result)
+    if rv in ("refuted-certified", "refuted-oracles"):
+        rec["viol"].append(("minimisation-lost-unsat:%s" % mode,
+                            "background + targets of the minimisation are unsatisfiable (z3 and cvc5) but background + result %s is satisfiable (%s); printed core %s"
+                            % (sx_str(impl_result), rv, sx_str(core)), dict(model=rd, background=[sx_str(x) for x in impl_bg], targets=[sx_str(x) for x in impl_targets])))
+        rec["own"] = "lost-unsat"
+        return
+    labels = []
+    for j in range(len(impl_result)):
+        v, how = cc.judge_sat(isig, logic, idecls, impl_bg + impl_result[:j] + impl_result[j + 1:])
+        labels.append(v)
+        if v == "unsat-oracles":
+            rec["viol"].append(("reducible:%s:own-background" % mode,
+                                "the result %s of the minimisation stays unsatisfiable with the background it was minimised against when %s is removed (z3 and cvc5: unsat)"
+                                % (sx_str(impl_result), sx_str(impl_result[j])),
+                                dict(element=sx_str(impl_result[j]), background=[sx_str(x) for x in impl_bg], targets=[sx_str(x) for x in impl_targets])))
+    rec["own"] = "checked"
+    rec["own_labels"] = labels
+
+
 def work(job):
     seed, i, hook = job
     rng = random.Random(seed * 99991 + (i if isinstance(i, int) else 0))
     if isinstance(i, str):
         text = open(i).read()
-        meta = dict(logic=None, features=["corpus"], incremental="push" in text)
         import re
         m = re.search(r"\(set-logic (\w+)\)", text)
-        meta["logic"] = m.group(1) if m else "QF_UF"
+        meta = dict(logic=m.group(1) if m else "QF_UF", features=["corpus"], incremental="(push" in text)
     else:
         text, meta = G.gen_core_script(rng, minimal=(rng.random() < 0.9), risky=0.2)
     out = dict(text=text, meta=meta, records=[], ties=[], counts={})
     def cnt(k, n=1):
         out["counts"][k] = out["counts"].get(k, 0) + n
     trace = os.path.join(vlib.BUILD, "tmp", "c07_%d_%s.trace" % (os.getpid(), abs(hash((seed, str(i))))))
-    rc, res, stdout, err = sc.run_aligned(text, timeout=30, trace=trace if hook else None)
+    rc, res, stdout, err = cc.run_aligned(text, timeout=30, trace=trace if hook else None)
     tr = ""
     if hook and os.path.exists(trace):
         tr = open(trace).read()
@@ -114,8 +215,8 @@ def work(job):
     blocks = cc.parse_min_trace(tr) if hook else []
     bi = 0
     last = None
-    first_min_done = False
     twin = None
+    nmin = 0
     for si, (st, r) in enumerate(zip(states, res)):
         ans = r[4]
         if st.kind == "check-sat":
@@ -124,10 +225,9 @@ def work(job):
             if ans == "unsat":
                 cc.note_unsat(states, si)
             continue
-        if st.kind != "get-unsat-core" or last != "unsat" or not st.opts[":produce-unsat-cores"]:
+        if st.kind != "get-unsat-core" or last != "unsat" or not st.opts[":produce-unsat-cores"] or not st.opts[":minimal-unsat-cores"]:
             continue
-        if not st.opts[":minimal-unsat-cores"]:
-            continue
+        nmin += 1
         block = None
         if hook:
             block = blocks[bi] if bi < len(blocks) else None
@@ -140,129 +240,102 @@ def work(job):
             rec["skip"] = "no-core-printed"
             continue
         top, unnamed, nest, allb = cc.view(st)
+        mode = "full" if full else "named"
+        if block is not None:
+            tie_block(block, core, full, rec, text, si, sig, logic, decls, out, cnt)
+            if (block.mode == "full") != full:
+                out["ties"].append(("minimize-mode", "trace says %s, the script's option state says %s" % (block.mode, mode), dict(script=text, query=si)))
+        # implementation's own problem: background, targets and result as traced (hook)
+        impl_bg = impl_targets = impl_result = None
+        isig, idecls = sig, decls
+        if block is not None and block.complete:
+            bt = block_terms(block, sig, decls)
+            if bt is not None:
+                tsx, isig, idecls = bt
+                impl_bg, impl_targets, impl_result = [tsx[k] for k in block.bg], [tsx[k] for k in block.targets], [tsx[k] for k in block.result]
+        def own():
+            if impl_result is not None and "own" not in rec:
+                own_problem(rec, mode, core, isig, logic, idecls, impl_bg, impl_targets, impl_result)
+        # ---- the core as assertions of the script ---------------------------------------------------------------
         if full:
             if not all(cc.symbols_known(f, sig) for f in core):
                 rec["skip"] = "full-core-has-undeclared-symbols(C06)"
+                own()
                 continue
             cterms, bg = list(core), []
         else:
             if not all(isinstance(n, str) for n in core) or any(n not in top for n in core) or len(set(core)) != len(core):
                 rec["skip"] = "name-not-a-current-named-assertion(C06)"
+                own()
                 continue
             cterms, bg = [top[n] for n in core], list(unnamed)
-        rec["sizes"] = (len(bg), len(cterms), len(block.targets) if block is not None else None)
+        rec["sizes"] = (len(bg), len(cterms), len(block.targets) if block is not None and block.begun else None)
+        if impl_result is not None:
+            if len(impl_result) != len(cterms) or not cc.all_equivalent(logic, idecls, list(zip(impl_result, cterms))):
+                rec["skip"] = "printed-%s-do-not-denote-the-minimised-terms(C06)" % ("formulas" if full else "names")
+                own()
+                continue
+        elif block is None and not full and nmin == 1:
+            # no hook: the targets are the core of a twin run without minimisation, in printing order
+            twin = cc.run_aligned(replace_minimal_off(text), timeout=30)
+            trc, tres = twin[0], twin[1]
+            T = core_of_answer(tres[si][4]) if trc in (0, 1) and tres and len(tres) == len(states) else None
+            if T is not None and all(isinstance(n, str) and n in top for n in T):
+                named_bodies = {sx_str(sc.strip_named(b)) for b in list(top.values()) + list(nest.values())}
+                impl_targets = [top[n] for n in T]
+                impl_bg = [u for u in unnamed if sx_str(sc.strip_named(u)) not in named_bodies]
+                if not st.popped_names and not any(cc.has_nonbool_ite(b, sig) for b in allb):
+                    tsx = dict(enumerate(impl_targets + impl_bg))
+                    Rz = oracle_min(tsx, list(range(len(T), len(tsx))), list(range(len(T))), logic, decls)
+                    if Rz is None:
+                        cnt("tie:oracle-unknown")
+                    elif [T[k] for k in Rz] != core:
+                        rec["oracle_mismatch"] = ("minimize-vs-oracle(twin run)", "performNaive with z3 on the targets %s of the twin run returns %s, implementation printed %s"
+                                                  % (T, [T[k] for k in Rz], core), dict(script=text, query=si))
+                    else:
+                        cnt("tie:twin-oracle-model-equal")
         # (a) core + background unsatisfiable  (ORACLE-ONLY)
         uv, ud = cc.judge_unsat(sig, logic, decls, bg + cterms)
         rec["unsat"] = uv
         if uv in ("refuted-certified", "refuted-oracles"):
-            cause = "plain"
-            if st.unsat_frames_gone:
-                cause = "stale-refutation-after-pop"
-            elif any(name is not None and cc.has_nonbool_ite(body, sig) for f in st.frames for body, name, _ in f["items"]):
-                cause = "named-assertion-with-nonbool-ite"
-            rec["viol"].append(("core-not-unsat:%s:%s" % ("full" if full else "named", cause),
-                                "the reported minimal core%s is satisfiable (%s)" % ("" if full else " together with all unnamed current assertions", uv),
-                                dict(model=ud)))
-            continue
-        # (b) dropping any single element: certified satisfiable
-        for j in range(len(cterms)):
-            rest = bg + cterms[:j] + cterms[j + 1:]
-            v, how = cc.judge_sat(sig, logic, decls, rest)
-            rec["labels"].append(v)
-            if v == "unsat-oracles":
+            # the minimisation is at fault only if its own input (background + targets) was unsatisfiable and its own output
+            # is not (judged on the traced terms); otherwise the core was wrong before the minimisation: C06's business
+            if impl_result is not None:
+                own()
+                if rec.get("own") != "lost-unsat":
+                    rec["skip"] = "core-satisfiable-but-not-by-minimisation(C06)"
+            elif impl_targets is not None and cc.judge_unsat(sig, logic, decls, impl_bg + impl_targets)[0] == "agree":
+                rec["viol"].append(("minimisation-lost-unsat:%s" % mode,
+                                    "background + core %s of the twin run without minimisation are unsatisfiable (z3 and cvc5) but the reported minimal core %s with the unnamed assertions is satisfiable (%s)"
+                                    % (sx_str(impl_targets), sx_str(core), uv), dict(model=ud)))
+            else:
+                rec["skip"] = "core-satisfiable-but-not-by-minimisation(C06)"
+        else:
+            # (b) dropping any single element: certified satisfiable
+            for j in range(len(cterms)):
+                rest = bg + cterms[:j] + cterms[j + 1:]
+                v, how = cc.judge_sat(sig, logic, decls, rest)
+                rec["labels"].append(v)
+                if v != "unsat-oracles":
+                    continue
                 cause = "plain"
-                if not full and any(cc.equivalent(logic, decls, cterms[j], u) for u in unnamed):
-                    cause = "term-also-asserted-unnamed"
-                elif st.unsat_frames_gone:
-                    cause = "stale-refutation-after-pop"
-                rec["viol"].append(("reducible:%s:%s" % ("full" if full else "named", cause),
+                if not full and impl_bg is not None and len(impl_bg) < len(unnamed) and (rec.get("replay_ok") or block is None):
+                    # (replay_ok: the traced background is exactly the current assertions for which contains() is false)
+                    # the implementation's background misses unnamed assertions whose term carries a name: is the core
+                    # irreducible with respect to the background actually used?
+                    if impl_result is not None and len(impl_result) == len(core):
+                        v2, _ = cc.judge_sat(isig, logic, idecls, impl_bg + impl_result[:j] + impl_result[j + 1:])
+                    else:
+                        v2, _ = cc.judge_sat(sig, logic, decls, impl_bg + cterms[:j] + cterms[j + 1:])
+                    if v2 == "certified":
+                        cause = "unnamed-assertion-term-carries-name"
+                rec["viol"].append(("reducible:%s:%s" % (mode, cause),
                                     "the minimal core %s stays unsatisfiable%s when %s is removed (z3 and cvc5: unsat)" %
                                     (sx_str(core), "" if full else " with the unnamed assertions", sx_str(core[j])),
-                                    dict(element=sx_str(core[j]))))
-        # ---- ties ----------------------------------------------------------------------------------------------
-        if block is not None and block.complete:
-            ids = {}
-            def cid(x):
-                if x not in ids:
-                    ids[x] = len(ids)
-                return ids[x]
-            bgi, tgi = [cid(x) for x in block.bg], [cid(x) for x in block.targets]
-            obs = [([cid(x) for x in L], a) for _, L, a in block.checks]
-            resi = [cid(x) for x in block.result]
-            if any(a == "unknown" for _, a in obs):
-                cnt("tie:inner-unknown")
-            else:
-                tab = {}
-                for L, a in obs:
-                    tab[tuple(L)] = a == "sat"
-                reqs = ["min %s|%s|%s" % (cc.ilist(bgi), cc.ilist(tgi), cc.table_str(tab))]
-                if block.mode == "named":
-                    reqs.append("mz 0|%s|%s|%s|%s" % (cc.ilist([cid(x) for x in block.current]), cc.ilist([1 if b else 0 for b in block.contains]),
-                                                    cc.ilist(tgi), cc.table_str(tab)))
-                else:
-                    reqs.append("mz 1|||%s|%s" % (cc.ilist(tgi), cc.table_str(tab)))
-                A = cc.driver(reqs)
-                ok = A[0].startswith("ok ") and A[1].startswith("ok ")
-                if ok:
-                    R, Lg = cc.parse_ok(A[0])
-                    R2, _ = cc.parse_ok(A[1])
-                    ok = R == resi and R2 == resi and Lg == [(L, a == "sat") for L, a in obs]
-                if not ok:
-                    out["ties"].append(("minimize-replay", "extracted performNaive/minimize on the observed answers gives %s; implementation: result %s, checks %s"
-                                        % (A, resi, obs), dict(script=text, query=si)))
-                else:
-                    cnt("tie:replay-exact")
-                # the printed core must be the names / formulas of the traced result
-                if len(block.result) != len(core):
-                    out["ties"].append(("minimize-result-printed", "traced result has %d terms, printed core %d" % (len(block.result), len(core)),
-                                        dict(script=text, query=si)))
-                # model with z3 as the oracle
-                try:
-                    tsx = {cid(k): read_all(v)[0] for k, v in block.terms.items() if k in ids}
-                    if all(cc.symbols_known(t, sig) for t in tsx.values()):
-                        Rz = oracle_min(tsx, bgi, tgi, logic, decls)
-                        if Rz is None:
-                            cnt("tie:oracle-unknown")
-                        elif Rz != resi:
-                            if not rec["viol"]:
-                                out["ties"].append(("minimize-vs-oracle", "performNaive with z3 as inner solver returns %s, implementation %s (targets %s, bg %s)"
-                                                    % (Rz, resi, tgi, bgi), dict(script=text, query=si, terms={k: sx_str(v) for k, v in tsx.items()})))
-                        else:
-                            cnt("tie:oracle-model-equal")
-                    else:
-                        cnt("tie:oracle-skipped(undeclared symbols)")
-                except ParseError:
-                    cnt("tie:oracle-skipped(term unreadable)")
-        elif block is not None and not block.begun:
-            if len(core) != 0 and not full:
-                out["ties"].append(("minimize-empty-targets", "no inner solver was created but the printed core is %s" % sx_str(core), dict(script=text, query=si)))
-            else:
-                cnt("tie:no-targets")
-        elif not hook and not first_min_done and not full:
-            # twin run without minimisation: its core, in printing order, is the target list
-            clean = not st.popped_names and not nest and not any(cc.has_nonbool_ite(b, sig) for b in allb)
-            bodies = {sx_str(sc.strip_named(b)) for b in top.values()}
-            clean = clean and not any(sx_str(sc.strip_named(u)) in bodies for u in unnamed)
-            if clean:
-                if twin is None:
-                    twin = sc.run_aligned(replace_minimal_off(text), timeout=30)
-                trc, tres = twin[0], twin[1]
-                T = core_of_answer(tres[si][4]) if trc in (0, 1) and tres and len(tres) == len(states) else None
-                if T is not None and all(isinstance(n, str) and n in top for n in T):
-                    tsx = {k: top[n] for k, n in enumerate(T)}
-                    nb = len(T)
-                    for u in unnamed:
-                        tsx[len(tsx)] = u
-                    Rz = oracle_min(tsx, list(range(nb, len(tsx))), list(range(nb)), logic, decls)
-                    if Rz is None:
-                        cnt("tie:oracle-unknown")
-                    elif [T[k] for k in Rz] != core:
-                        if not rec["viol"]:
-                            out["ties"].append(("minimize-vs-oracle(twin run)", "performNaive with z3 on the targets %s of the twin run returns %s, implementation printed %s"
-                                                % (T, [T[k] for k in Rz], core), dict(script=text, query=si)))
-                    else:
-                        cnt("tie:twin-oracle-model-equal")
-        first_min_done = True
+                                    dict(element=sx_str(core[j]), implementation_background=[sx_str(x) for x in impl_bg] if impl_bg is not None else None,
+                                         unnamed=[sx_str(x) for x in unnamed])))
+        if impl_result is not None and not full and len(impl_bg) != len(unnamed):
+            own()
     if hook and bi != len(blocks):
         out["ties"].append(("minimize-trace-count", "%d minimisations traced, %d minimising get-unsat-core commands answered" % (len(blocks), bi), dict(script=text)))
     return out
@@ -288,8 +361,19 @@ def run(ctx):
             ctx.tie_broken(name, detail, case)
         for rec in o["records"]:
             mode = "full" if rec["full"] else "named"
+            if rec.get("oracle_mismatch") and not rec["viol"]:
+                ctx.tie_broken(*rec["oracle_mismatch"])
+            if rec.get("own"):
+                ctx.count("own-problem:%s" % rec["own"])
+                for l in rec.get("own_labels", []):
+                    ctx.count("own-problem:drop-one:%s" % l)
+            for sig_, what, extra in (rec["viol"] if rec["sizes"] is None else []):
+                rp = dict(script=text, query_index=rec["si"], printed_core=rec["answer"], features=meta.get("features"))
+                rp.update(extra)
+                ctx.violation(sig_, what, rp)
             if rec["skip"]:
                 ctx.count("skipped:%s" % rec["skip"])
+            if rec["sizes"] is None:
                 continue
             nb, nc, nt = rec["sizes"]
             ctx.case(key=(text, rec["si"]), nontrivial=(nc >= 2 or (nt or 0) >= 2),
